@@ -41,6 +41,7 @@ type GenCfg struct {
 	Prefix      string
 	Adversarial bool // store names / descriptions that mention the metadata field names, quotes, braces, unicode
 	Bulk        int  // >0: bulk-load programs (ascending keys, Bulk adds per transaction) instead of random ones
+	Neighbour   bool // programs whose transactions work on adjacent keys (interior item and its successor / predecessor)
 }
 
 var writeOps = []string{"Add", "Add", "AddIfNotExist", "Update", "Upsert", "Upsert", "Remove", "Remove"}
@@ -50,6 +51,9 @@ var readOps = []string{"Find", "Get", "Get", "Count", "Scan"}
 func GenProgram(r *rand.Rand, c GenCfg, id int) Program {
 	if c.Bulk > 0 {
 		return genBulk(r, c, id)
+	}
+	if c.Neighbour && id%2 == 0 {
+		return genNeighbour(r, c, id)
 	}
 	var p Program
 	ns := 1 + r.Intn(c.MaxStores)
@@ -164,6 +168,51 @@ func genBulk(r *rand.Rand, c GenCfg, id int) Program {
 		p.Txns = append(p.Txns, t)
 	}
 	p.Txns = append(p.Txns, TxnSpec{Mode: "r", Open: []int{0}, Ops: []OpSpec{{Op: "Count", Store: 0}, {Op: "Scan", Store: 0}}, End: "commit"})
+	return p
+}
+
+// genNeighbour: one store seeded with the even keys 2..2*Keys; every later transaction works on a key and its
+// neighbours (remove k while adding / updating / reading k+1 or k-1), so that removals of items held by interior
+// nodes meet changes of the successor item that takes their slot.
+func genNeighbour(r *rand.Rand, c GenCfg, id int) Program {
+	var p Program
+	o := sopenv.StoreOpts{Name: fmt.Sprintf("%s%d_s0", c.Prefix, id), Slot: c.Slots[r.Intn(len(c.Slots))], Unique: true,
+		Placement: c.Placements[r.Intn(len(c.Placements))], Balancing: r.Intn(3) == 0}
+	p.Stores = []sopenv.StoreOpts{o}
+	seed := TxnSpec{Mode: "w", New: []int{0}, End: "commit"}
+	for k := 1; k <= c.Keys; k++ {
+		seed.Ops = append(seed.Ops, OpSpec{Op: "Add", Store: 0, K: 2 * k, V: "0"})
+	}
+	p.Txns = append(p.Txns, seed)
+	vn := 0
+	val := func() string { vn++; return fmt.Sprintf("n%d.%d", id, vn) }
+	perm := r.Perm(c.Keys) // every seeded key is the centre of one transaction: some of them sit in interior nodes
+	for ti := 0; ti < c.Keys; ti++ {
+		t := TxnSpec{Mode: "w", Open: []int{0}, End: "commit"}
+		for cl := 0; cl < 1+r.Intn(2); cl++ {
+			k := 2 * (1 + r.Intn(c.Keys))
+			if cl == 0 {
+				k = 2 * (1 + perm[ti])
+			}
+			nb := k + 1
+			if r.Intn(3) == 0 {
+				nb = k - 1
+			}
+			a := OpSpec{Op: []string{"Add", "Upsert", "Update", "AddIfNotExist", "Get", "Add"}[r.Intn(6)], Store: 0, K: nb, V: val()}
+			b := OpSpec{Op: []string{"Remove", "Remove", "Remove", "Update", "Upsert"}[r.Intn(5)], Store: 0, K: k, V: val()}
+			if r.Intn(2) == 0 {
+				a, b = b, a
+			}
+			t.Ops = append(t.Ops, a, b)
+			if r.Intn(3) == 0 {
+				t.Ops = append(t.Ops, OpSpec{Op: []string{"Get", "Scan", "Find"}[r.Intn(3)], Store: 0, K: nb})
+			}
+		}
+		if c.Rollbacks && r.Intn(8) == 0 {
+			t.End = "rollback"
+		}
+		p.Txns = append(p.Txns, t)
+	}
 	return p
 }
 
